@@ -133,6 +133,11 @@ impl<const V: u32> Driver<V> {
                 allow_oom_call: false,
             };
             a = memory_manager::alloc_with_options::<ShadowVM<V>>(mu, size, align, offset, sem, opts);
+            if a.is_zero() && self.rng.chance(1, 3) {
+                // the refusal has requested a collection that has not started yet (this thread has
+                // not reached a safepoint): a user request made now overlaps a pending request
+                self.gc(m, false);
+            }
         }
         if a.is_zero() {
             a = memory_manager::alloc::<ShadowVM<V>>(mu, size, align, offset, sem);
